@@ -51,7 +51,7 @@ def run_job(root, workdir, func, args, timeout=900):
     with open(jobf, "wb") as f:
         pickle.dump((func, args), f)
     env = dict(os.environ)
-    env.update(VERIF_REPO=root, VERIF_HOME=HOME, PYTHONPATH=HOME, LD_PRELOAD=ASAN_RT, PYTHONHASHSEED="0",
+    env.update(VERIF_REPO=root, VERIF_HOME=HOME, PYTHONPATH=HOME, LD_PRELOAD=ASAN_RT, PYTHONHASHSEED="0", VERIF_SAN_MARK="1",
                ASAN_OPTIONS="detect_leaks=0:abort_on_error=0:halt_on_error=1:allocator_may_return_null=1",
                UBSAN_OPTIONS="print_stacktrace=0:halt_on_error=0", PYTHONMALLOC="malloc")
     p = subprocess.run([sys.executable, "-m", "harness.observe.sanrun", jobf, resf], env=env, cwd=HOME,
